@@ -52,6 +52,7 @@ fn main() {
         "C14" => checks::c14::run(tier),
         "silent-child" => checks::c14::silent_child(),
         "C14-shim" => checks::c14::shim_child(tier),
+        "setup" => checks::c14::setup(),
         "C02" => checks::c02::run(tier),
         "C10" => checks::c10::run(tier),
         "C17" => checks::c17::run(tier),
